@@ -39,6 +39,8 @@ class Walker(object):
         self._ambig_cols = set()
         self._m = None
         self._raw = None
+        self._nb = None
+        self.nbs = []       # per field: increment width of the compressed column (None if n/a)
         self._ctx = None
         self._body = None
         self.ops_seen = set()
@@ -71,8 +73,10 @@ class Walker(object):
             self._ambig_cols = set()
         self.meta.append(self._m)
         self.raws.append(self._raw)
+        self.nbs.append(self._nb)
         self._m = None
         self._raw = None
+        self._nb = None
         self.labels.append(label)
         self.cols.append(vals)
         self.kinds.append(kind)
@@ -94,6 +98,7 @@ class Walker(object):
             return [miss(self.bits.u(w))]
         mn = self.bits.u(w)
         nb = self.bits.u(6)
+        self._nb = nb
         if nb == 0:
             return [miss(mn)] * self.ncols
         if miss(mn) is None:
@@ -120,6 +125,7 @@ class Walker(object):
             return [self.bits.bytes_(nbytes)]
         mn = self.bits.bytes_(nbytes)
         nb = self.bits.u(6)
+        self._nb = nb
         if nb == 0:
             return [mn] * self.ncols
         if mn.strip(b'\0'):
@@ -131,6 +137,7 @@ class Walker(object):
         m = self.bits.u(w - 1)
         if self.comp:
             nb = self.bits.u(6)
+            self._nb = nb
             if nb:
                 raise Unsupported('new reference value differs between subsets')
         return [-m if s else m] * self.ncols
